@@ -24,6 +24,9 @@ fn plan(prop: &str, tier: Tier) -> Option<Plan> {
         "C01" => (checks::c01::spaces(tier), checks::c01::meta(tier)),
         "C04" => (checks::c04::spaces(tier), checks::c04::meta(tier)),
         "C12" => (checks::c12::spaces(tier), checks::c12::meta(tier)),
+        "C13" => (checks::c13::spaces(tier), checks::c13::meta(tier)),
+        "C14" => (checks::c14::spaces(tier), checks::c14::meta(tier)),
+        "C19" => (checks::c19::spaces(tier), checks::c19::meta(tier)),
         "C18" => (checks::c18::spaces(tier), checks::c18::meta(tier)),
         _ => return None,
     };
